@@ -30,12 +30,32 @@ impl Ptr {
         ensures r.a == self.a + n, r.lo == self.lo, r.hi == self.hi, r.live == self.live
     { Ptr { a: self.a + (n as usize), lo: self.lo, hi: self.hi, live: self.live } }
     pub fn addr(self) -> (r: usize) ensures r == self.a { self.a }
+    // ptr::wrapping_add / wrapping_sub: always allowed, the result keeps its provenance (and may lie outside)
+    pub fn wrapping_add(self, n: usize) -> (r: Ptr)
+        ensures r.a == wrap(self.a + n), r.lo == self.lo, r.hi == self.hi, r.live == self.live
+    { Ptr { a: self.a.wrapping_add(n), lo: self.lo, hi: self.hi, live: self.live } }
+    pub fn wrapping_sub(self, n: usize) -> (r: Ptr)
+        ensures r.a == wrap(self.a - n + 0x1_0000_0000_0000_0000), r.lo == self.lo, r.hi == self.hi, r.live == self.live
+    { Ptr { a: self.a.wrapping_sub(n), lo: self.lo, hi: self.hi, live: self.live } }
 }
 
 // R3: panic sites become proof obligations
 pub fn vassert(c: bool)
     requires c, // [C07]
 {}
+// R3g (per-function option asserts=guard): assert! as the function's own documented bound check --
+// control continues only if the condition held (a panic is a safe refusal, not a handed-out reference)
+#[verifier::external_body]
+pub fn vguard(c: bool)
+    ensures c,
+{ if !c { panic!() } }
+// the same with a panic-freedom obligation under a ghost condition g (e.g. "the implementor is one of
+// the crate's own, whose get_slice is exact"): must not fire when g holds, and guards in any case
+#[verifier::external_body]
+pub fn vguardif(Ghost(g): Ghost<bool>, c: bool)
+    requires g ==> c, // [C07]
+    ensures c,
+{ if !c { panic!() } }
 pub fn vunreachable()
     requires false, // [C07]
 {}
